@@ -314,7 +314,7 @@ Section LayerProgress.
     - eapply Hrun; eauto; discriminate.
   Qed.
 
-  Theorem join_returns_over_lock_layer progs hprogs sched : acyclic_targets tgt h0 n ->
+  Lemma layer_join_returns progs hprogs sched : acyclic_targets tgt h0 n ->
     let c := ljrun join_unlocks_before_wait tgt h0 n progs hprogs sched in
     lstuck join_unlocks_before_wait tgt c ->
     (forall t, blocked (ag (bg (fst c)) t) = false) /\
@@ -338,4 +338,44 @@ Section LayerProgress.
     - rewrite (Hnb (n - t)) in S; [discriminate|lia].
     - now apply (k3 _ _ _ _ _ I t Ht) in S.
   Qed.
+
+  (* ... together with Proofs/JoinLockProofs.v: in a layer-stuck state everything is over *)
+  Theorem join_returns_over_lock_layer progs hprogs sched : acyclic_targets tgt h0 n ->
+    let c := ljrun join_unlocks_before_wait tgt h0 n progs hprogs sched in
+    lstuck join_unlocks_before_wait tgt c ->
+    (forall t, blocked (ag (bg (fst c)) t) = false) /\
+    (forall t, t < n -> pc (bl (snd c t)) = PDone /\ relock (snd c t) = None) /\
+    (forall o k, hlk (fst c) o k = None) /\
+    (forall t, pc (bl (snd c t)) = PIdle -> calls_returned (snd c t) = true).
+  Proof.
+    intros Hac c St.
+    destruct (layer_join_returns progs hprogs sched Hac St) as [A B].
+    destruct (handle_calls_return_during_join tgt h0 n progs hprogs sched St) as (C1 & _ & C3).
+    repeat split; auto; apply B; assumption.
+  Qed.
 End LayerProgress.
+
+(* ------------------------------------------------------------------ witness: hypotheses satisfiable, non-trivial run *)
+(* chain 0 joins 1 joins 2 (Proofs/JoinProgress.v: chain_tgt, chain_h0, chain_progs); thread 3 is a third party:
+   joinable() on task 0's handle, detach() of task 0's handle WHILE task 0 is suspended inside join() on it, then
+   interrupt() through task 1's handle (aimed at task 2, which never reaches an interruption point). *)
+Definition lc_hprogs (t : nat) : list hop := match t with 3 => [HObs 0 0; HDetach 0 0; HIntr 1 0] | _ => [] end.
+Definition lc_sched1 : list (nat * unit) := rep 0 6 ++ rep 1 6 ++ rep 3 2.
+Definition lc_sched : list (nat * unit) := lc_sched1 ++ rep 3 3 ++ rep 2 9 ++ rep 1 10 ++ rep 0 8.
+
+Lemma layer_join_returns_example :
+  let c := ljrun join_unlocks_before_wait chain_tgt chain_h0 3 chain_progs lc_hprogs lc_sched in
+  lstuck join_unlocks_before_wait chain_tgt c /\
+  pc (bl (snd c 0)) = PDone /\ pc (bl (snd c 1)) = PDone /\ pc (bl (snd c 2)) = PDone /\
+  calls_returned (snd c 3) = true /\
+  In (EJoinRet 0 0) (log (bg (fst c))) /\ In (EJoinRet 1 0) (log (bg (fst c))) /\ In (EIntrReq 3 2) (log (bg (fst c))) /\
+  hlog (fst c) = [HDetached 3 0 0; HObserved 3 0 0 true] /\
+  (* on the way: both joiners suspended inside join(); the third party has cleared the id_ of the handle task 0 is
+     joining on (the base invariant's "a joiner's handle is valid" does not hold on the layer) *)
+  let c1 := ljrun join_unlocks_before_wait chain_tgt chain_h0 3 chain_progs lc_hprogs lc_sched1 in
+  blocked (ag (bg (fst c1)) 0) = true /\ blocked (ag (bg (fst c1)) 1) = true /\
+  pc (bl (snd c1 0)) = PJoinWake 0 false /\ hid (bg (fst c1)) 0 0 = false.
+Proof.
+  cbv zeta. split; [|vm_compute; repeat split; auto 10].
+  intros t. destruct t as [|[|[|[|t]]]]; vm_compute; reflexivity.
+Qed.
